@@ -25,7 +25,9 @@ func init() {
 			ruleRootSymmetric("C09.symmetric"), ruleLinkPrecise("C09.linkprecise"), ruleC09Answers, ruleLocalMemo("C09.localmemo"),
 			aliasRuleFiltered(ruleC02LinkTarget, "C02.linktarget", "C09.linktarget", 1, func(o Oblig) bool { return strings.Contains(o.Key, "Unpack") }),
 			aliasRuleFiltered(ruleC06CanonURL, "C06.canonurl", "C09.canonkey", 1, func(o Oblig) bool { return strings.Contains(o.Key, "canonical") }),
-			aliasRuleFiltered(ruleC13Maps, "C13.maps", "C09.lookup", 3, func(o Oblig) bool { return strings.Contains(o.Key, "sourcebundle.Bundle)") || strings.Contains(o.Key, "sourcebundle.OpenDir/") })},
+			aliasRuleFiltered(ruleC13Maps, "C13.maps", "C09.lookup", 3, func(o Oblig) bool {
+				return strings.Contains(o.Key, "sourcebundle.Bundle)") || strings.Contains(o.Key, "sourcebundle.OpenDir/")
+			})},
 		NotDecided: []string{
 			"equality of two bundles; the Pack/Unpack round trip (C02) and address round trip (C06) for the values involved",
 			"package metadata with an empty commit id is not re-created on re-open (asymmetry noted, outside the structural rule)",
@@ -56,12 +58,14 @@ func init() {
 	})
 }
 
-func ruleC06ManifestAs(id string) func(*Checker) { return aliasRule(ruleC06Manifest, "C06.manifest", id, 3) }
+func ruleC06ManifestAs(id string) func(*Checker) {
+	return aliasRule(ruleC06Manifest, "C06.manifest", id, 3)
+}
 func ruleC03PruneAs(id string) func(*Checker) {
 	// for the bundle property only the bundle walker's obligations matter
 	return aliasRuleFiltered(ruleC03Prune, "C03.prune", id, 2, func(o Oblig) bool { return strings.Contains(o.Key, "sourcebundle.") })
 }
-func ruleC03BundleAs(id string) func(*Checker)   { return aliasRule(ruleC03Bundle, "C03.bundle", id, 3) }
+func ruleC03BundleAs(id string) func(*Checker) { return aliasRule(ruleC03Bundle, "C03.bundle", id, 3) }
 
 // aliasRule re-reports another property's rule under this property's id.
 func aliasRule(r func(*Checker), from, to string, floor int) func(*Checker) {
@@ -1632,8 +1636,24 @@ func reverseDetail(c *Checker, R string, fn *ssa.Function, ranges []mapRange) {
 		if ex, ok := a.(*ssa.Extract); ok && ex.Tuple == ssa.Value(cut) && ex.Index == 1 {
 			afterCut = true
 		}
-		if sl, ok := a.(*ssa.Slice); ok && p.backSlice(sl.Low, 0)[cut] {
+		isTail := func(v ssa.Value) bool {
+			sl, ok := canon(v).(*ssa.Slice)
+			return ok && sl.Low != nil && p.backSlice(sl.Low, 0)[cut]
+		}
+		if isTail(a) {
 			afterCut = true
+		}
+		if ph, ok := a.(*ssa.Phi); ok {
+			// "" when there is no separator, the tail otherwise
+			afterCut = true
+			for _, e := range ph.Edges {
+				if k, isC := constString(e); isC && k == "" {
+					continue
+				}
+				if !isTail(e) {
+					afterCut = false
+				}
+			}
 		}
 		c.check(afterCut, R, name, "sub-path validity tested on the remainder", p.Pos(ci.Pos()), "ValidSubPath(what follows the first separator)", "the sub-path validity test is applied to the whole path from the root, package directory name included: a directory name the manifest reader accepts but a sub-path cannot contain (a question mark) makes every path below that package be refused, although the forward lookup returns them")
 	}
@@ -1804,7 +1824,6 @@ func ruleC08Meta(c *Checker) {
 	}
 	c.check(okAll, R, p.FuncName(fn), "fetcher metadata recorded on every successful path", pos, "every success return lies past the metadata update (or the 'no metadata' edge)", "a success return can be reached without recording the fetcher's metadata (e.g. the early return for an already-present identical directory): the bundle's metadata then depends on fetch order")
 }
-
 
 // flatJoinArgs: the elements of a filepath.Join, with a first element that is
 // itself a Join expanded (Join(Join(a, b), c) == Join(a, b, c)).
